@@ -21,6 +21,49 @@ def _mk(obl, axioms, timeout_ms, ematching_only):
     return s
 
 
+def _hard_check(s, hard_timeout_s, want_model):
+    """s.check() in a forked child with a hard wall-clock limit (z3's own timeout is not always honoured:
+    some phases do not poll the cancel flag). Returns (result string, reason, model text or None)."""
+    import select, pickle, signal
+    r_fd, w_fd = os.pipe()
+    pid = os.fork()
+    if pid == 0:
+        try:
+            os.close(r_fd)
+            r = s.check()
+            res = {"r": str(r), "reason": s.reason_unknown() if r == z3.unknown else "", "model": None}
+            if want_model and r != z3.unsat:
+                try:
+                    res["model"] = _model_text(s.model())
+                except Exception as ex:
+                    res["model"] = f"<model unavailable: {ex}>"
+            with os.fdopen(w_fd, "wb") as f:
+                pickle.dump(res, f)
+        finally:
+            os._exit(0)
+    os.close(w_fd)
+    out = None
+    try:
+        ready, _, _ = select.select([r_fd], [], [], hard_timeout_s)
+        if ready:
+            with os.fdopen(r_fd, "rb") as f:
+                r_fd = None
+                out = pickle.load(f)
+    except Exception:
+        out = None
+    finally:
+        if r_fd is not None:
+            os.close(r_fd)
+        try:
+            os.kill(pid, signal.SIGKILL)
+        except ProcessLookupError:
+            pass
+        os.waitpid(pid, 0)
+    if out is None:
+        return "unknown", "timeout (hard limit: solver did not return)", None
+    return out["r"], out["reason"], out["model"]
+
+
 def _is_budget(reason):
     return any(w in reason for w in ("timeout", "canceled", "resource", "memory", "interrupted"))
 
@@ -29,40 +72,34 @@ def check(obl, axioms=(), timeout_ms=10000, want_smt2=False):
     """Two passes: (1) E-matching only (fast proofs, never `sat`); (2) if not unsat, the default
     configuration with model-based quantifier instantiation, which can also answer `sat`."""
     t0 = time.time()
+    hard = timeout_ms / 1000.0 + 5
     if obl.expect_sat:
         s = _mk(obl, axioms, min(timeout_ms, 3000), False)
-        r = s.check()
+        r, reason, model = _hard_check(s, 8, False)
     else:
         s = _mk(obl, axioms, timeout_ms, True)
-        r = s.check()
-        reason1 = None
-        if r != z3.unsat:
-            reason1 = s.reason_unknown()
-            s1 = s
+        r, reason, model = _hard_check(s, hard, True)
+        if r != "unsat":
+            r1, reason1, model1, s1 = r, reason, model, s
             s = _mk(obl, axioms, timeout_ms, False)
-            r = s.check()
-            if r == z3.unknown and _is_budget(s.reason_unknown()) and not _is_budget(reason1):
+            r, reason, model = _hard_check(s, hard, True)
+            if r == "unknown" and _is_budget(reason) and not _is_budget(reason1):
                 # E-matching saturated without a proof (pass 1) and model-based instantiation ran out of
                 # time (pass 2): report the saturation verdict of pass 1
-                s = s1
+                r, reason, model, s = r1, reason1, model1, s1
     dt = time.time() - t0
     out = {"name": obl.name, "kind": obl.kind, "line": obl.line, "seconds": round(dt, 3), "solver": "z3-5.1.0(api)"}
     if obl.expect_sat:
         # anti-vacuity: a path condition that is *refutable* makes everything behind it vacuous.
         # sat = witnessed reachable; unknown = not refutable within the budget (quantified formulas
         # rarely get a model): both are accepted, only unsat is an error.
-        out["status"] = COVERED if r == z3.sat else (VACUOUS if r == z3.unsat else "cover-not-refuted")
-    elif r == z3.unsat:
+        out["status"] = COVERED if r == "sat" else (VACUOUS if r == "unsat" else "cover-not-refuted")
+    elif r == "unsat":
         out["status"] = DISCHARGED
-    elif r == z3.sat:
+    elif r == "sat":
         out["status"] = REFUTED
-        try:
-            m = s.model()
-            out["model"] = _model_text(m)
-        except Exception as ex:  # pragma: no cover
-            out["model"] = f"<model unavailable: {ex}>"
+        out["model"] = model
     else:
-        reason = s.reason_unknown()
         out["reason"] = reason
         if _is_budget(reason):
             out["status"] = UNKNOWN            # budget exhausted: undecided
@@ -72,10 +109,7 @@ def check(obl, axioms=(), timeout_ms=10000, want_smt2=False):
             # This is what deductive verifiers report as a failed obligation (Boogie/Dafny convention);
             # the candidate model is attached but is not guaranteed to be a real model.
             out["status"] = FAILED
-            try:
-                out["model"] = "CANDIDATE (not guaranteed): \n" + _model_text(s.model())
-            except Exception as ex:
-                out["model"] = f"<no candidate model: {ex}>"
+            out["model"] = "CANDIDATE (not guaranteed): \n" + (model or "<none>")
     if want_smt2 or out["status"] in (REFUTED, UNKNOWN, FAILED):
         try:
             out["smt2"] = s.to_smt2()
